@@ -100,6 +100,15 @@ def run(ctx):
                 nc = rng.choice([0, 0, 1, 2, 3])
                 ck = sorted(rng.sample(range(len(keys)), min(nc, len(keys))))
                 custom = {keys[k]: perturb(copy.deepcopy(tables[f][sat][keys[k]]), rng) for k in ck}
+                # a custom entry REPLACES the entry it names: a thermometer given with fewer terms than the shipped one
+                # (legitimate: the calibrator reads missing terms as 0) must not inherit the shipped higher-order terms
+                thermo = [k for k in tables[f][sat] if k.startswith("thermometer_")]
+                if thermo and rng.random() < 0.35:
+                    tk = rng.choice(thermo)
+                    full = perturb(copy.deepcopy(tables[f][sat][tk]), rng)
+                    keep = sorted(rng.sample(sorted(full), rng.randint(1, max(1, len(full) - 1))))
+                    custom[tk] = {k2: full[k2] for k2 in keep}
+                    ck = sorted(set(ck) | {keys.index(tk)})
                 reqs.append((sat, f, keys, ck, custom))
                 hist_payload.append({"sat": sat, "file": f, "custom_keys": [keys[k] for k in ck]})
                 prev = (sat, f)
